@@ -3,7 +3,33 @@ import sys, math
 from common import *  # noqa
 
 PID = 'C20'
-MODELLED = {'makerandCIJ_dir', 'makerandCIJ_und', 'makeringlatticeCIJ', 'makeevenCIJ', 'makerandCIJdegreesfixed'}
+MODELLED = {'makerandCIJ_dir', 'makerandCIJ_und', 'makeringlatticeCIJ', 'makeevenCIJ', 'makerandCIJdegreesfixed',
+            'maketoeplitzCIJ', 'makefractalCIJ'}
+MAX_REPLAY_DRAWS = 40000     # longer toeplitz rejection runs are judged by the predicates only
+
+_SEEN = []
+
+
+class SpyArray(np.ndarray):
+    """what rng.random_sample((n, n)) returns during one observed call: records the float matrix it is compared with
+    (`u < template` in maketoeplitzCIJ, `prob > u` in makefractalCIJ, which Python dispatches to the subclass's reflected __lt__)"""
+
+    def __lt__(self, other):
+        _SEEN.append(np.array(other, dtype=float)); return np.asarray(self) < np.asarray(other)
+
+    def __gt__(self, other):
+        _SEEN.append(np.array(other, dtype=float)); return np.asarray(self) > np.asarray(other)
+
+
+class SpyRecorder(Recorder):
+    def random_sample(self, size=None):
+        v = super().random_sample(size)
+        return v.view(SpyArray) if isinstance(v, np.ndarray) else v
+
+
+def thr_str(x):
+    f = fractions.Fraction(float(x))
+    return '%d/%d' % (f.numerator, f.denominator)
 
 
 def circ_dist(n):
@@ -15,7 +41,12 @@ def circ_dist(n):
 
 
 def cond_of(c):
-    return {'routine': c['routine']}
+    d = {'routine': c['routine']}
+    if c['routine'] == 'makerandCIJdegreesfixed':
+        d['graphical'] = bool(c.get('graphical'))
+    if c['routine'] == 'maketoeplitzCIJ':
+        d['k_feasible'] = 0 <= c['k'] <= c['n'] * (c['n'] - 1)
+    return d
 
 
 def basic(F, X, n, sym=None):
@@ -36,7 +67,8 @@ def run_case(c):
     r = c['routine']; F = []
     res = {'fails': F, 'draws': []}
     if r in ('maketoeplitzCIJ', 'makefractalCIJ'):
-        seed = c['seed']            # uniform matrices: not replayed by a model, no need to log 10^4 matrices
+        del _SEEN[:]
+        seed = SpyRecorder(c['seed'])
     else:
         seed = Recorder(c['seed'])
     if r in ('makerandCIJ_dir', 'makerandCIJ_und', 'makeringlatticeCIJ'):
@@ -52,6 +84,10 @@ def run_case(c):
     res['status'] = st
     if isinstance(seed, Recorder):
         res['draws'] = seed.flat()
+    if r in ('maketoeplitzCIJ', 'makefractalCIJ'):
+        res['thr'] = _SEEN[0].tolist() if _SEEN else None
+        res['thr_stable'] = all(np.array_equal(t, _SEEN[0]) for t in _SEEN)
+        del _SEEN[:]
     if st == 'exc':
         res['exc'] = out; return res
     if st != 'ok':
@@ -65,6 +101,8 @@ def run_case(c):
         X = X.astype(int)
     X = X.astype(float)
     res['X'] = X.tolist()
+    if not np.all(X == np.round(X)):        # mat_str truncates: never let a non-integer entry reach the exact comparison
+        F.append(('zero-one', {'non_integer_entries': True})); return res
     if c.get('malformed'):
         return res
     # ---- independent predicates
@@ -119,6 +157,14 @@ def run_case(c):
 
 
 def lean_line(c, res):
+    draws = ','.join(map(str, res['draws'])) or '-'
+    if c['routine'] == 'maketoeplitzCIJ':
+        T = np.array(res['thr']) if res.get('thr') is not None else np.zeros((c['n'], c['n']))
+        return 'maketoeplitzCIJ n=%d k=%d prof=%s draws=%s' % (c['n'], c['k'], ','.join(thr_str(x) for x in T[0, 1:]) or '-', draws)
+    if c['routine'] == 'makefractalCIJ':
+        n = 2 ** c['mx_lvl']
+        P = np.array(res['thr']) if res.get('thr') is not None else np.zeros((n, n))
+        return 'makefractalCIJ n=%d k=0 mx=%d szcl=%d prob=%s draws=%s' % (n, c['mx_lvl'], c['sz_cl'], ','.join(thr_str(x) for x in P.ravel()), draws)
     if c['routine'] == 'makerandCIJdegreesfixed':
         return '%s n=%d k=0 inv=%s outv=%s draws=%s' % (c['routine'], len(c['inv']), ','.join(map(str, c['inv'])) or '-',
                                                        ','.join(map(str, c['outv'])) or '-', ','.join(map(str, res['draws'])) or '-')
@@ -131,6 +177,8 @@ def lean_line(c, res):
 def expected_line(c, res):
     if res['status'] == 'exc':
         return 'error=' + exc_kind(res['exc'])
+    if c['routine'] == 'makefractalCIJ':
+        return 'C=%s k=%d left=0' % (mat_str(np.array(res['X'])), res['kret'])
     return 'C=%s left=0' % mat_str(np.array(res['X']))
 
 
@@ -165,7 +213,10 @@ def gen_cases(rs, tier):
                 cases.append({'routine': 'makeevenCIJ', 'n': n, 'k': ncl - 1, 'sz_cl': s, 'seed': 1, 'malformed': 'k-below-clusters'})
     # toeplitz: if it returns, count = K
     for n in range(3, (7 if not big else 9)):
-        for k in range(1, n * (n - 1) // 2 + 1):
+        ks = list(range(0, (n * (n - 1) // 2 if n > 4 else n * (n - 1)) + 1))   # n <= 4: every feasible K
+        if n in (5, 6):
+            ks += [n * (n - 1) - 2, n * (n - 1)]                               # a few dense K (the rejection loop gives up for small s)
+        for k in ks:
             for s in (1.0, 2.0, 4.0):
                 for _ in range(2 if not big else seeds):
                     cases.append({'routine': 'maketoeplitzCIJ', 'n': n, 'k': k, 's': s, 'seed': int(rs.randint(2 ** 31))})
@@ -177,14 +228,18 @@ def gen_cases(rs, tier):
                     cases.append({'routine': 'makefractalCIJ', 'mx_lvl': mx, 'E': E, 'sz_cl': s, 'seed': int(rs.randint(2 ** 31))})
     # degrees fixed: graphical pairs = degree sequences of random simple digraphs, n <= 5 (+ the empty graph)
     for n in ((2, 3, 4, 5, 6) if not big else (2, 3, 4, 5, 6, 7, 8)):
-        cases.append({'routine': 'makerandCIJdegreesfixed', 'inv': [0] * n, 'outv': [0] * n, 'seed': 1})
+        cases.append({'routine': 'makerandCIJdegreesfixed', 'inv': [0] * n, 'outv': [0] * n, 'seed': 1, 'graphical': True})
         for _ in range(30 if not big else 120):
             A = rand_graph(rs, n, float(rs.choice([.2, .4, .6, .8])), True)
             if A.sum() == 0:
                 continue
             for _s in range(seeds if big else 3):
                 cases.append({'routine': 'makerandCIJdegreesfixed', 'inv': [int(x) for x in A.sum(0)], 'outv': [int(x) for x in A.sum(1)],
-                              'seed': int(rs.randint(2 ** 31))})
+                              'seed': int(rs.randint(2 ** 31)), 'graphical': True})
+    # non-graphical pairs with equal sums (no claim: raising is fine; the model must still agree)
+    for inv, outv in (([1, 1], [2, 0]), ([2, 0, 0], [2, 0, 0]), ([3, 0, 0, 0], [0, 3, 0, 0]), ([2, 2, 0], [0, 2, 2])):
+        cases.append({'routine': 'makerandCIJdegreesfixed', 'inv': inv, 'outv': outv, 'seed': int(rs.randint(2 ** 31)), 'graphical': False,
+                      'malformed': 'non-graphical'})
     return cases
 
 
@@ -195,8 +250,11 @@ def main():
                       'makefractalCIJ levels 2..4(5), E in {1,2,3}; makerandCIJdegreesfixed on degree sequences of random simple digraphs N<=6(8); '
                       'non-trivial = distinct case in which the generator returned a non-empty matrix')
     ck.assumptions += ['K feasible: K <= N(N-1) (N(N-1)/2 undirected), K >= number of cluster cells for makeevenCIJ, N a power of two >= 4 where required',
-                       'maketoeplitzCIJ (10000 rejections) and makerandCIJdegreesfixed (repair loop) may give up with BCTParamError (documented): counted, not a violation ("if it returns")',
-                       'maketoeplitzCIJ and makefractalCIJ are checked by the Python predicates only (no Lean model)']
+                       'maketoeplitzCIJ (10000 rejections) and makerandCIJdegreesfixed (repair loop) may give up with BCTParamError on in-domain input: reported as violations of the '
+                       'predicates gives-up-after-10000-rejections / gives-up-on-graphical-input, which are open known findings (documented limitations)',
+                       'maketoeplitzCIJ / makefractalCIJ: the float threshold matrix (scaled Gaussian profile, 1/E**ee) is observed in the real run '
+                       '(through the array returned by random_sample) and given to the model as exact dyadic rationals; norm.pdf, the float scaling and the float powers are not modelled',
+                       'toeplitz runs with more than %d uniform draws are judged by the predicates only (no replay)' % MAX_REPLAY_DRAWS]
     ok = ck.lean_gate(['BctVerif.Props.C20'], extra_modules=['BctVerif.Model.Synth'])
     if ck.tier == 'thorough' and ok:
         ck.leanchecker(['BctVerif.Props.C20', 'BctVerif.Model.Synth'])
@@ -224,17 +282,35 @@ def main():
         if c.get('malformed'):
             ck.count('malformed:' + c['malformed'])
         elif r['status'] == 'exc':
-            if rt in ('maketoeplitzCIJ', 'makerandCIJdegreesfixed') and exc_kind(r['exc']) == 'BCTParamError':
-                ck.count(rt + ':gave-up')      # documented: rejection / repair loop not guaranteed to succeed
+            if rt == 'makerandCIJdegreesfixed' and exc_kind(r['exc']) == 'BCTParamError':
+                # in-domain input (graphical by construction) on which the repair loop gives up: the property promises a matrix
+                ck.count(rt + ':gave-up')
+                ck.violation(rt, 'gives-up-on-graphical-input', {'case': c, 'exception': r['exc']}, cond)
+            elif rt == 'maketoeplitzCIJ' and exc_kind(r['exc']) == 'BCTParamError':
+                ck.count(rt + ':gave-up')
+                ck.violation(rt, 'gives-up-after-10000-rejections', {'case': c, 'exception': r['exc']}, cond)
             else:
                 ck.violation(rt, 'raises', {'case': c, 'exception': r['exc']}, cond)
         else:
             for pred, info in r['fails']:
                 ck.violation(rt, pred, {'case': c, 'output': r.get('X'), 'info': info}, cond)
+        if rt == 'maketoeplitzCIJ' and r.get('thr') is not None:
+            T = np.array(r['thr']); nn = c['n']
+            toep = all(T[i, j] == (0 if i == j else T[0, abs(i - j)]) for i in range(nn) for j in range(nn))
+            if not (toep and r['thr_stable']):
+                ck.corr_break('maketoeplitzCIJ template is not the Toeplitz matrix of its first row with a zero diagonal', {'case': c, 'template': r['thr']})
+        if rt == 'maketoeplitzCIJ' and len(r['draws']) > MAX_REPLAY_DRAWS:
+            ck.count('toeplitz:replay-skipped-long-run'); continue
         if rt == 'makerandCIJdegreesfixed' and len(r['draws']) > sum(c['inv']):
             ck.count('degreesfixed:repair-loop-entered')
         if rt in MODELLED:
             lines.append(lean_line(c, r)); idx.append(n_)
+    # a routine that hangs or raises on (almost) every input must not pass silently
+    for rt in sorted(set(c['routine'] for c in cases)):
+        rr = [r for c, r in zip(cases, results) if c['routine'] == rt and not c.get('malformed')]
+        nto = sum(r['status'] == 'timeout' for r in rr); nok = sum(r['status'] == 'ok' for r in rr)
+        if rr and not ck.replay and (nto > 0.05 * len(rr) or nok == 0):
+            ck.violation(rt, 'hangs-or-never-returns', {'cases': len(rr), 'timeouts': nto, 'normal_returns': nok}, {'routine': rt})
     if ok:
         try:
             outs = run_driver('Synth', lines)
